@@ -120,6 +120,15 @@ def run(ck):
         u(zips[0].args[0]) == u(na.args[1]) and 'nx.disjoint_union(block, non_anchor)' in u(pmf)
     ck.ob('SIB-index-space', mod.loc(pmf), ok, 'the atoms a modification adds are numbered by zipping the very collection `{}` whose subgraph view is united with the block '
           '(both enumerate the same object, so added atom k gets index len(block)+k on both sides)'.format(u(na.args[1]) if ok else '?'), key='SIB-index-space|patch_modification')
+    eb = [l for l in pmf.body if isinstance(l, ast.For) and call_attr(l.iter) == 'edges_between']
+    ok = len(eb) == 1 and [u(a) for a in eb[0].iter.args] == ['anchor_idxs', 'non_anchor_idxs'] and u(eb[0].iter.func.value) == 'modification'
+    if ok:
+        ae = [c for c in ast.walk(eb[0]) if isinstance(c, ast.Call) and call_attr(c) == 'add_edge']
+        env_ = {u(s_.targets[0]): u(s_.value) for s_ in eb[0].body if isinstance(s_, ast.Assign)}
+        ends = [env_.get(u(a), u(a)) for a in ae[0].args[:2]] if len(ae) == 1 else []
+        ok = ends == ['mod_to_block[{}]'.format(u(e)) for e in eb[0].target.elts] and all(unconditional_in(pmf, eb[0].body, s_) for s_ in eb[0].body)
+    ck.ob('PROV-patch-bonds', mod.loc(pmf), ok, 'every bond of the modification between an anchor atom and an added atom (whichever way round it is stored: `edges_between`) '
+          'is added to the patched block, unconditionally', key='PROV-patch-bonds|attach')
     # ------------------------------------------------------------ canonical attributes onto matched atoms
     upd = stmts_with_env(rr, lambda s: isinstance(s, ast.Expr) and call_attr(s.value) == 'update' and u(s.value.func.value) == 'node' and u(s.value.args[0]) == 'ref_node')
     ok = len(upd) >= 1
@@ -177,6 +186,21 @@ def run(ck):
     ri = [s for s in body if isinstance(s, ast.Assign) and u(s.targets[0]) == 'res_idx']
     ck.ob('PROV-rebuild', mod.loc(fl[0]), len(ri) == 1 and u(ri[0].value) == 'max(molecule) + 1', 'rebuilt atoms get fresh keys above all existing ones', key='PROV-rebuild|keys')
 
+    # a rebuilt atom is the block atom: the block atom's attributes win over the attributes common to the residue
+    nodedefs = [s_ for s_ in body if isinstance(s_, ast.Assign) and u(s_.targets[0]) == 'node']
+    upds = [s_ for s_ in body if isinstance(s_, ast.Expr) and call_attr(s_.value) == 'update' and u(s_.value.func.value) == 'node']
+    resloop = [l for l in body if isinstance(l, ast.For) and u(l.iter) == 'ref_residue.items()']
+    addn = [s_ for s_ in body if isinstance(s_, ast.Expr) and call_attr(s_.value) == 'add_node' and u(s_.value.func.value) == 'molecule']
+    ok = len(nodedefs) == 1 and u(nodedefs[0].value) == '{}' and len(upds) == 1 and u(upds[0].value.args[0]) == 'ref_node' and len(resloop) == 1 and len(addn) == 1 and \
+        body.index(nodedefs[0]) < body.index(resloop[0]) < body.index(upds[0]) < body.index(addn[0])
+    if ok:
+        rnd = [s_ for s_ in body if isinstance(s_, ast.Assign) and u(s_.targets[0]) == 'ref_node']
+        dels = [s_ for s_ in ast.walk(fl[0]) if isinstance(s_, ast.Delete) and u(s_.targets[0]) == "ref_node['resid']"]
+        later = [s_ for s_ in body[body.index(upds[0]) + 1:body.index(addn[0])] if isinstance(s_, ast.Assign) and u(s_.targets[0]).startswith('node[')]
+        ok = len(rnd) == 1 and u(rnd[0].value) == 'reference.nodes[ref_idx].copy()' and len(dels) == 1 and [u(s_.targets[0]) for s_ in later] == ["node['atomid']"] and \
+            u(addn[0].value) == 'molecule.add_node(res_idx, **node)'
+    ck.ob('PROV-rebuild', mod.loc(fl[0]), ok, 'a rebuilt atom starts from the attributes shared by the residue and is then overwritten with the block atom\'s own attributes '
+          '(name, element, ...; the block\'s resid excepted), so the block atom wins', key='PROV-rebuild|attributes')
     # ------------------------------------------------------------ PROV: unrecognised = complement of the match
     ex = single_def(rg, 'extra')
     ok = ex is not None and u(ex) == 'set(found.nodes) - set(match.values())'
